@@ -150,10 +150,10 @@ class Ctx(object):
         self.extra = {}
         self.actions = {}
         self.tlc_runs = []
-        self.workdir = os.path.join(BUILD, pid)
-        if os.path.isdir(self.workdir):
-            shutil.rmtree(self.workdir, ignore_errors=True)
-        os.makedirs(self.workdir)
+        # a private scratch directory per invocation: two runs of the same check (e.g. against
+        # different trees) must not wipe each other's files; removed by finish()
+        os.makedirs(BUILD, exist_ok=True)
+        self.workdir = tempfile.mkdtemp(prefix=pid + "_", dir=BUILD)
         self.repo = os.environ.get("LENA_REPO", "/repo")
         kf = os.path.join(VERIF, "known_findings.json")
         self.known = []
